@@ -457,3 +457,73 @@ def C15(ck):
     finally:
         _rm(dom)
     _reader(ck)
+
+
+def C17(ck):
+    import glob
+    import json
+    import os
+    ck.rule = ("schedules generated by TLC from spec/PsaConcurrent.tla: batches of 16 (quick) / 64 (thorough) goroutines, each running one "
+               "of 18 operations (create, decode CBOR / JSON / COSE incl. an extension profile, validate, getters, encode, "
+               "validate-and-encode, sign with shared claims, verify, build-and-sign, setter history) on private objects or on 6 shared "
+               "ones (claims of both profiles, an extension, a decoded no-measurements set, two decoded Evidence); a batch is released at "
+               "once with no intermediate synchronisation; the harness is built with the Go race detector and started cold in 16 (64) "
+               "separate processes; every concurrent result is compared with the same call made sequentially afterwards and the shared "
+               "objects are deep-snapshotted; race reports become Race events; non-trivial = every operation instance")
+    ck.assumptions = TRUST + ["the Go race detector observes the executions TLC's schedules drive; a race it does not observe in them is not excluded"]
+    ck.add_model(vlib.mc("PsaConcurrent", "MC_Concurrent.cfg"))
+    quick = ck.tier == "quick"
+    sched, ns = vlib.gen_sim("PsaConcurrent", "Sim_Concurrent.cfg" if quick else "Sim_Concurrent_big.cfg", "sched", 200 if quick else 5000,
+                            200 if quick else 1200, ck.seed, procs=8 if quick else 16)
+    dom = vlib.gen_export("Gen_Claims", "Gen_Claims.cfg", "domains")
+    procs = 16 if quick else 64
+    racedir = ck.path("race")
+    os.makedirs(racedir, exist_ok=True)
+    try:
+        from concurrent.futures import ThreadPoolExecutor
+        vlib.build_harness(race=True)
+
+        def part(k):
+            st, _ = vlib.harness(["conc", "-seed", ck.seed, "-part", k, "-of", procs, "-in", sched, "-in2", dom, "-out", ck.path("cc%d" % k)],
+                                 race=True, env={"GORACE": "log_path=%s/race halt_on_error=0 exitcode=0" % racedir}, timeout=3000)
+            return st
+        with ThreadPoolExecutor(max_workers=8) as ex:
+            stats = list(ex.map(part, range(procs)))
+        files = [f for st in stats for f in st["files"]]
+        # race reports -> events
+        reports = []
+        for f in sorted(glob.glob(racedir + "/race*")):
+            txt = open(f).read()
+            for chunk in txt.split("WARNING: DATA RACE")[1:]:
+                reports.append(chunk[:3000])
+        if reports:
+            rf = ck.path("race.0.ndjson")
+            seen = set()
+            with open(rf, "w") as w:
+                for r in reports:
+                    key = "\n".join(x.strip() for x in r.splitlines() if "/repo/" in x)[:600]
+                    if key in seen:
+                        continue
+                    seen.add(key)
+                    w.write(json.dumps(dict(b=0, i=0, op="Race", name="race", obj="", res="", seq="", panicked=False, snapEq=True,
+                                            where=key, report=r)) + "\n")
+            files.append(rf)
+        merged = dict(events=sum(s["events"] for s in stats) + (len(seen) if reports else 0), behaviours=sum(s["behaviours"] for s in stats),
+                      distinct_nontrivial=sum(s["distinct_nontrivial"] for s in stats), samples=stats[0].get("samples", []), files=files)
+        res = vlib.judge("Trace_Concurrent", files, par=10, prop=ck.prop, xmx="3g")
+        ck.add_stats(merged)
+        ck.judged.append(dict(module="Trace_Concurrent", events=res["n"], states=res["states"], driver="conc x %d processes" % procs))
+        for (f, i, ev) in res["bad"]:
+            ck.violations.append((ev, "Trace_Concurrent event %d of %s" % (i, os.path.basename(f)), ["conc"]))
+        ops = set()
+        objs = set()
+        for v in res["verdicts"]:
+            ops |= set(v.get("ops", []))
+            objs |= set(v.get("objs", []))
+        if len(ops - {"race"}) < 18 or len(objs) < 7:
+            raise Machinery("schedules do not cover all operations / objects: %d ops %d objects" % (len(ops), len(objs)))
+        ck.extra.update(schedules=ns, processes=procs, race_reports=len(reports))
+        for f in files:
+            _rm(f)
+    finally:
+        _rm(sched, dom)
